@@ -126,30 +126,22 @@ def main():
     thorough = run.tier == "thorough"
     vh = vlib.build_vh(FAMILY)
     with vlib.Scratch("verif-c27-") as sc:
-        gensets = ["upto3", "h4s"] if thorough else ["upto2"]
-        jobs = {"mc-cov": ("ReconfigMC", "ReconfigMC.cfg", {"coverage": True, "timeout": 900,
-                                                               "consts": "CONSTANT MaxPackets = 2\nCONSTANT MaxUpdates = 2"}),
-                "mc": ("ReconfigMC", "ReconfigMC.cfg", {"timeout": 1500, "consts": "CONSTANT MaxPackets = %d\nCONSTANT MaxUpdates = %d" %
+        genset = "thorough" if thorough else "quick"
+        jobs = {"mc": ("ReconfigMC", "ReconfigMC.cfg", {"coverage": True, "timeout": 1500,
+                                                         "consts": "CONSTANT MaxPackets = %d\nCONSTANT MaxUpdates = %d" %
                                                          ((4, 3) if thorough else (3, 3))}),
                 "mc-neg-loss": ("ReconfigMC", "ReconfigMCNegLoss.cfg", {"timeout": 900}),
                 "mc-neg-equals": ("ReconfigMC", "ReconfigMCNegEquals.cfg", {"timeout": 900}),
-                "gen-h1": _gen_job("h1", run.seed), "gen-restart": _gen_job("restart", run.seed)}
-        for gs in gensets:
-            jobs["gen-" + gs] = _gen_job(gs, run.seed)
+                "gen": _gen_job(genset, run.seed)}
         res = _tlc_jobs(sc, jobs)
 
         # ---- M
-        cov = res["mc-cov"]
-        vlib.expect_tlc_ok(cov, "ReconfigMC (coverage)")
-        if cov.violation:
-            raise vlib.MachineryError("Reconfig design violates %s (spec error, not a code verdict)" % cov.violation)
-        for a in ("Packets", "BeginUpdate", "FinalWriteout", "StopAll", "StartAll"):
-            vlib.require(cov.coverage.get(a, (0, 0))[0] > 0, "vacuous: action %s never taken" % a)
-        run.add_tlc(cov, "ReconfigMC/coverage")
         m = res["mc"]
         vlib.expect_tlc_ok(m, "ReconfigMC")
         if m.violation:
             raise vlib.MachineryError("Reconfig design violates %s (spec error, not a code verdict)" % m.violation)
+        for a in ("Packets", "BeginUpdate", "FinalWriteout", "StopAll", "StartAll"):
+            vlib.require(m.coverage.get(a, (0, 0))[0] > 0, "vacuous: action %s never taken" % a)
         run.add_tlc(m, "ReconfigMC")
         vlib.require(res["mc-neg-loss"].violation in ("NoLoss", "NoLossOnStop"),
                      "negative model run StopFlushes=FALSE was not rejected: %s %s" % (res["mc-neg-loss"].violation, res["mc-neg-loss"].error))
@@ -158,15 +150,17 @@ def main():
         run.cov["negative_model_runs"] = "StopFlushes=FALSE violates %s; FullEquals=FALSE violates Converged" % res["mc-neg-loss"].violation
 
         # ---- F: configuration histories on the real manager
-        domain, behs = None, []
-        for gs in gensets:
-            g = res["gen-" + gs]
-            vlib.expect_tlc_ok(g, "ReconfigGen/" + gs)
-            vlib.require(g.traces and g.infos, "ReconfigGen/%s printed no behaviours" % gs)
-            run.add_tlc(g, "ReconfigGen/" + gs)
-            domain = g.infos[0]
-            behs += g.traces
-            run.cov.setdefault("behaviours_per_family", {})[gs] = len(g.traces)
+        g = res["gen"]
+        vlib.expect_tlc_ok(g, "ReconfigGen/" + genset)
+        vlib.require(g.traces and g.infos, "ReconfigGen/%s printed no behaviours" % genset)
+        run.add_tlc(g, "ReconfigGen/" + genset)
+        domain = g.infos[0]
+        nupd = lambda b: sum(1 for s in b if s["act"]["name"] == "Update")
+        behs = [b for b in g.traces if nupd(b) <= 4]
+        stress = [b for b in g.traces if nupd(b) > 4]
+        short = [b for b in behs if nupd(b) == 1]
+        vlib.require(len(stress) == 1 and len(short) >= 20, "generator did not print the expected schedule families")
+        run.cov["behaviours_per_length"] = dict(collections.Counter(str(nupd(b)) for b in behs))
         outs, summ = _replay(vh, domain, behs)
         run.count(summ["steps"])
         run.cov["traces_validated_against_impl"] += len(behs)
@@ -185,32 +179,30 @@ def main():
                                           "keep_loggers": False, "msg": o.get("msg", "")[:2500]})
 
         # restart stress with the manager's error-logging goroutines kept alive (as in goProbe): a restarted capture must survive
-        g = res["gen-restart"]
-        vlib.expect_tlc_ok(g, "ReconfigGen/restart")
-        run.add_tlc(g, "ReconfigGen/restart")
         copies = 24 if thorough else 8
-        souts, ssumm = _replay(vh, domain, g.traces * copies, keep_loggers=True)
+        souts, ssumm = _replay(vh, domain, stress * copies, keep_loggers=True)
         run.count(ssumm["steps"])
-        run.cov["traces_validated_against_impl"] += len(g.traces) * copies
+        run.cov["traces_validated_against_impl"] += copies
         run.cov["restart_stress"] = {"updates": ssumm["updates"], "failing": ssumm["failed"]}
         for o in souts:
             if o.get("ok") is False:
+                if o["desc"].get("cls") in ("running-set-differs", "reported-config-differs", "memory-differs", "db-differs"):
+                    # this schedule only toggles promiscuous mode of e0: whatever goes wrong here is the successor capture
+                    # disappearing at some point of the observation
+                    o["desc"] = dict(o["desc"], symptom=o["desc"]["cls"], cls="restarted-capture-torn-down")
                 classes[o["desc"].get("cls")] += 1
                 run.violation(o["desc"], {"kind": "rc-replay", "domain": domain, "behaviour": o.get("behaviour"), "step": o.get("step"),
                                           "keep_loggers": True, "msg": o.get("msg", "")[:2500],
                                           "note": "timing dependent: re-run the replay several times"})
 
         # negative control F: one expected database count changed at the last step of every behaviour
-        g1 = res["gen-h1"]
-        vlib.expect_tlc_ok(g1, "ReconfigGen/h1")
-        run.add_tlc(g1, "ReconfigGen/h1")
-        nouts, nsumm = _replay(vh, domain, g1.traces, negative=True)
+        nouts, nsumm = _replay(vh, domain, short, negative=True)
         rejected = {o["id"] for o in nouts if o.get("ok") is False}
         at_last = [o for o in nouts if o.get("ok") is False and o["desc"].get("cls") == "db-differs"]
-        vlib.require(len(rejected) == len(g1.traces) and len(at_last) >= len(g1.traces) // 3,
+        vlib.require(len(rejected) == len(short) and len(at_last) >= len(short) // 3,
                      "negative control: corrupted expected values accepted (%d of %d rejected, %d at the corrupted value)" %
-                     (len(rejected), len(g1.traces), len(at_last)))
-        run.cov["negative_control_F"] = "%d/%d behaviours rejected, %d at the corrupted database count" % (len(rejected), len(g1.traces), len(at_last))
+                     (len(rejected), len(short), len(at_last)))
+        run.cov["negative_control_F"] = "%d/%d behaviours rejected, %d at the corrupted database count" % (len(rejected), len(short), len(at_last))
 
         # ---- B: determinism over 20 fresh managers, decided by TLC
         managers = 20
@@ -271,7 +263,7 @@ def main():
             run.cov["failing_cases_by_class"] = dict(classes)
 
     run.cov["rule"] = ("distinct = distinct configuration histories (with window flag) replayed; F covers all histories of length <= %s over "
-                       "11 configurations x {no window traffic, window traffic}%s; B: %d histories with overlapping patterns x %d fresh "
+                       "11 configurations x {no window traffic, window traffic}%s, restart stress; B: %d histories with overlapping patterns x %d fresh "
                        "managers" % ("3" if thorough else "2", " plus a seeded tenth of length 4" if thorough else "", nhist, managers))
     run.assumptions += [
         "capture sources are scripted; the parameters a capture runs with are the configuration its Capture object was created with",
